@@ -7,5 +7,5 @@ CONSTANTS
   FccFixed = TRUE
   CommitBeforeCheckpoint = FALSE
   EnvAtomic = FALSE
-INVARIANTS ConformLog ConformExt ResolvedOnlyWhenEmpty MarkedOnlyWhenResolved UpstreamConsistent
+INVARIANTS ConformLog ConformExt ResolvedOnlyWhenEmpty MarkedOnlyWhenResolved NoPendingCloseWithEmptyLog UpstreamConsistent
 CHECK_DEADLOCK TRUE
